@@ -54,6 +54,32 @@ Proof.
     cbn [length]. split; [lia|]. split; [lia|]. intros _. exact Q.
 Qed.
 
+Lemma xks_nonempty E de s al src dst0 : src <> [] ->
+  xor_key_stream E de s al src dst0 =
+  if (length (dst_for al src dst0) <? length src)%nat then None else
+  if (bs + bs <? length src)%nat && (match al with Disjoint => true | InPlace => false end) then
+    match slow E de s (firstn bs src) with
+    | None => None
+    | Some (st1, o16) =>
+        let dst1 := o16 ++ skipn bs (dst_for al src dst0) in
+        if de then
+          match fast_dec E (iv st1) src (skipn bs src) (skipn bs dst1) with
+          | None => None
+          | Some (iv2, t) => Some ({| iv := iv2; pos := 0 |}, o16 ++ t)
+          end
+        else
+          match fast_enc E (iv st1) dst1 (skipn bs src) with
+          | None => None
+          | Some (iv2, t) => Some ({| iv := iv2; pos := 0 |}, t)
+          end
+    end
+  else
+    match slow E de s src with
+    | None => None
+    | Some (st1, o) => Some (st1, o ++ skipn (length src) (dst_for al src dst0))
+    end.
+Proof. destruct src; [congruence|]. reflexivity. Qed.
+
 Section XKS.
 Variable E : list N -> list N.
 Variable fuel : nat.
@@ -300,5 +326,91 @@ Proof.
     rewrite run_block_cons. cbn [exec]. simp_st. cbv iota.
     rewrite run_block_cons. cbn [exec]. cbv iota.
     eexists. unfold c10_XORKeyStream_ivPos. rewrite Hs'. reflexivity.
+Qed.
+
+Lemma interp_xks_is_model (al : alias) (dst0 : list N) :
+  dst = dst_for al src dst0 ->
+  (al = InPlace /\ S = D) \/ (al = Disjoint /\ (D + lenZ dst <= S \/ S + lenZ src <= D)) ->
+  interp_xks E false fuel sd sa s_in
+  = match xor_key_stream E de st0 al src dst0 with
+    | None => OPanic
+    | Some (st', out) =>
+        ONormal (mkst (wr_mem m D (firstn (length src) out)) (iv st') (Z.of_nat (pos st')) 16 de lc)
+    end.
+Proof.
+  intros Hdd Hal.
+  unfold interp_xks, activation, run_body, XKS, s_in, locals, sd, sa. simp_st.
+  rewrite run_block_cons. cbn [exec]. simp_st. rewrite tie_empty_check.
+  assert (Hne : src = [] \/ src <> []) by (destruct src; [left|right]; congruence).
+  destruct Hne as [He|Hne].
+  { rewrite He in Hdd |- *. change (xor_key_stream E de st0 al [] dst0) with (Some (st0, dst_for al [] dst0)).
+    rewrite <- Hdd. reflexivity. }
+  rewrite xks_nonempty by exact Hne. rewrite <- Hdd.
+  assert (HL0 : 0 < lenZ src) by (unfold lenZ; destruct src; [congruence|cbn [length]; lia]).
+  replace (lenZ src =? 0) with false by (symmetry; apply Z.eqb_neq; lia). cbv iota.
+  rewrite run_block_nil. cbv iota.
+  (* if len(dst) < len(src) { panic } *)
+  rewrite run_block_cons. cbn [exec]. simp_st. rewrite tie_short_check.
+  unfold lenZ in *.
+  destruct (Nat.ltb_spec (length dst) (length src)) as [Hsh|Hle].
+  { ltb_true (Z.of_nat (length dst)) (Z.of_nat (length src)). cbv iota. reflexivity. }
+  ltb_false (Z.of_nat (length dst)) (Z.of_nat (length src)). cbv iota. rewrite run_block_nil. cbv iota.
+  (* the first pointer test *)
+  rewrite run_block_cons. cbn [exec]. simp_st.
+  rewrite tie_fast_test by (change (2 ^ 63) with 9223372036854775808; change (2 ^ 62) with 4611686018427387904 in *; lia).
+  change (2 * 16) with 32.
+  assert (Hcond : (32 <? Z.of_nat (length src)) && ((D + 16 <=? S) || (S + Z.of_nat (length src) <=? D))
+                  = (bs + bs <? length src)%nat && (match al with Disjoint => true | InPlace => false end)).
+  { unfold bs. destruct Hal as [(-> & HSD)|(-> & Hdis)].
+    - rewrite andb_false_r. apply andb_false_iff. right. apply orb_false_iff. split; apply Z.leb_gt; lia.
+    - rewrite andb_true_r. destruct (Nat.ltb_spec (16 + 16) (length src)) as [Hf|Hf].
+      + apply andb_true_iff. split; [apply Z.ltb_lt; lia|]. apply orb_true_iff.
+        destruct Hdis; [left|right]; apply Z.leb_le; lia.
+      + apply andb_false_iff. left. apply Z.ltb_ge. lia. }
+  rewrite Hcond. clear Hcond.
+  destruct ((bs + bs <? length src)%nat && (match al with Disjoint => true | InPlace => false end)) eqn:Hf.
+  - (* fast path *)
+    apply andb_true_iff in Hf. destruct Hf as [Hlen Hdj]. apply Nat.ltb_lt in Hlen. unfold bs in Hlen.
+    destruct Hal as [(-> & _)|(-> & Hdis)]; [discriminate|].
+    pose proof (fast_block_run ltac:(unfold lenZ; lia) Hle ltac:(unfold lenZ; exact Hdis)) as HF.
+    unfold fast_block, XKS, locals, sd, sa in HF. cbv iota in HF. change bs with 16%nat.
+    change (fun (x : run_stmt) (s' : st) => exec E false fuel (interp_call E false fuel) x s') with (exec E false fuel (interp_call E false fuel)).
+    destruct (slow E de st0 (firstn 16 src)) as [[st1 o16]|] eqn:Eslow.
+    2:{ unfold lenZ in HF. rewrite HF. reflexivity. }
+    cbv zeta in HF. destruct HF as (l' & HF). unfold lenZ in HF. rewrite HF. clear HF. cbv iota. simp_st.
+    set (a16 := firstn 16 src) in *. set (r := skipn 16 src) in *.
+    assert (Hsplit : src = a16 ++ r) by (symmetry; apply firstn_skipn).
+    assert (Ha16 : length a16 = 16%nat) by (unfold a16; rewrite firstn_length; lia).
+    assert (Hr : length src = (16 + length r)%nat) by (rewrite Hsplit at 1; rewrite app_length; lia).
+    destruct (slow_len _ _ _ _ _ _ Eslow) as (Ho16 & Hiv1 & Hiv16). rewrite Ha16 in Ho16.
+    specialize (Hiv16 ltac:(destruct a16; [discriminate|congruence])).
+    assert (Hivl : (bs <= length (iv st1))%nat) by (unfold bs; lia).
+    assert (Hsk : skipn 16 (o16 ++ skipn 16 dst) = skipn 16 dst) by (rewrite <- Ho16 at 1; apply skipn_app_exact).
+    assert (Hdl : (length r <= length (skipn 16 dst))%nat) by (rewrite skipn_length; lia).
+    assert (Hfn : forall X Y : list N, length X = length r -> firstn (length src) (o16 ++ X ++ Y) = o16 ++ X).
+    { intros X Y HX. rewrite app_assoc. replace (length src) with (length (o16 ++ X)) by (rewrite app_length; lia).
+      apply firstn_app_exact. }
+    assert (Hwr : forall X, wr_mem m D (o16 ++ X) = wr_mem (wr_mem m D o16) (D + 16) X).
+    { intros X. rewrite wr_mem_app. unfold lenZ. rewrite Ho16. reflexivity. }
+    destruct de.
+    + rewrite Hsk. replace (fast_dec E (iv st1) src r (skipn 16 dst)) with (fast_dec E (iv st1) (a16 ++ r) r (skipn 16 dst))
+        by (rewrite <- Hsplit; reflexivity).
+      rewrite (fast_dec_ok E r (iv st1) a16 (skipn 16 dst) Ha16 Hivl Hdl). cbv iota. cbn [iv pos].
+      rewrite Hfn by (apply (cfb_length E true r a16)). rewrite Hwr. reflexivity.
+    + rewrite (fast_enc_ok E r (iv st1) o16 (skipn 16 dst) Ho16 Hivl Hdl). cbv iota. cbn [iv pos].
+      rewrite Hfn by (apply (cfb_length E false r o16)). rewrite Hwr. reflexivity.
+  - (* slow path *)
+    rewrite run_block_nil. cbv iota.
+    rewrite run_block_cons. cbn [exec eval_sexp bound]. simp_st.
+    change (0 <=? 0) with true. leb_true 0 (Z.of_nat (length dst)). leb_true (Z.of_nat (length dst)) capd.
+    leb_true 0 (Z.of_nat (length src)). leb_true (Z.of_nat (length src)) caps.
+    cbn [andb]. cbv iota. rewrite !Z.add_0_r, !Z.sub_0_r. unfold interp_call.
+    pose proof (slow_all s_in (mkloc 0 0 0 0%N sd sa nil_slc nil_slc) Hle
+                  ltac:(unfold lenZ; destruct Hal as [(_ & HSD)|(_ & Hdis)]; lia)) as HS1.
+    unfold sd, sa, lenZ in HS1. rewrite HS1. clear HS1.
+    destruct (slow E de st0 src) as [[st1 o]|] eqn:Eslow; [|reflexivity].
+    cbv iota. rewrite run_block_nil. cbv iota. simp_st.
+    destruct (slow_len _ _ _ _ _ _ Eslow) as (Ho & _).
+    rewrite <- Ho. rewrite firstn_app_exact. reflexivity.
 Qed.
 End XKS.
